@@ -10,7 +10,7 @@
    the statement is REFUTED on the faithful model (C01_label_refuted: known finding). *)
 From Coq Require Import String List ZArith NArith Bool.
 Import ListNotations.
-From Selfies Require Import Base Generated Lex Atoms Decoder StateFacts Reader DecoderBasics DecoderInv DecoderTree DecoderSum TokFacts WriterFinal RingCount.
+From Selfies Require Import Base Generated Lex Atoms Decoder StateFacts Reader DecoderBasics DecoderInv DecoderTree DecoderSum TokFacts WriterFinal RingCount CompatTotal.
 Local Open Scope string_scope.
 Local Open Scope Z_scope.
 
@@ -148,35 +148,44 @@ Proof. exact decoder_output_valid. Qed.
 (* the ring bound can be read off the input: the decoded graph joins at most as many pairs of atoms by ring
    bonds as the string has ring symbols *)
 Theorem C01_ring_pairs_bounded : forall T s compat attribute m,
-  decode_graph T s compat attribute = Ok m -> (length (ring_pairs m) <= ring_symbols s compat)%nat.
+  decode_graph T s compat attribute = Ok m -> (length (ring_pairs m) <= ring_symbol_count s compat)%nat.
 Proof. intros T s compat attribute m. exact (ring_pairs_le_symbols (get_bonding_capacity T) s compat attribute m). Qed.
 
 (* ... so the main theorem has hypotheses on the input string only: symbols of at most 19 characters (or
    digit-free), fewer than 100 ring symbols *)
 Theorem C01_valid_smiles_from_string : forall T s attribute out maps,
-  (exists c, assoc (lit "?") T = Some c) -> symbols_short s -> (ring_symbols s false < 100)%nat ->
+  (exists c, assoc (lit "?") T = Some c) -> symbols_short s -> (ring_symbol_count s false < 100)%nat ->
   decoder T s false attribute = Ok (out, maps) ->
   valid_smiles_under T out = true.
 Proof.
   intros T s attribute out maps Hq Hs Hr E. apply (C01_valid_smiles T s attribute out maps Hq Hs E).
-  intros m Hm. apply Nat.le_lt_trans with (ring_symbols s false); [exact (C01_ring_pairs_bounded T s false attribute m Hm)|exact Hr].
+  intros m Hm. apply Nat.le_lt_trans with (ring_symbol_count s false); [exact (C01_ring_pairs_bounded T s false attribute m Hm)|exact Hr].
 Qed.
 
 Theorem C01_valid_smiles_from_string_any_flag : forall T s compat attribute out maps,
-  (exists c, assoc (lit "?") T = Some c) -> frags_ok s compat -> (ring_symbols s compat < 100)%nat ->
+  (exists c, assoc (lit "?") T = Some c) -> frags_ok s compat -> (ring_symbol_count s compat < 100)%nat ->
   decoder T s compat attribute = Ok (out, maps) ->
   valid_smiles_under T out = true.
 Proof.
   intros T s compat attribute out maps Hq Hs Hr E. apply (decoder_output_valid T s compat attribute out maps Hq Hs E).
-  intros m Hm. apply Nat.le_lt_trans with (ring_symbols s compat); [exact (C01_ring_pairs_bounded T s compat attribute m Hm)|exact Hr].
+  intros m Hm. apply Nat.le_lt_trans with (ring_symbol_count s compat); [exact (C01_ring_pairs_bounded T s compat attribute m Hm)|exact Hr].
+Qed.
+
+(* both flags, hypotheses on the input string alone (the legacy front end is covered by proofs/CompatTotal.v) *)
+Theorem C01_valid_smiles_from_string_both_flags : forall T s compat attribute out maps,
+  (exists c, assoc (lit "?") T = Some c) -> symbols_short s -> (ring_symbol_count s compat < 100)%nat ->
+  decoder T s compat attribute = Ok (out, maps) ->
+  valid_smiles_under T out = true.
+Proof.
+  intros T s compat attribute out maps Hq Hs. apply C01_valid_smiles_from_string_any_flag; [exact Hq|]. now apply frags_ok_of_symbols.
 Qed.
 
 (* the bound on ring symbols is sharp: 99 five-rings in a row decode to a valid string, 100 do not *)
 Definition five_rings (n : nat) : str := (lit "[C]" ++ concat (repeat (lit "[C][C][C][C][Ring1][Branch1]") n))%list.
 Example C01_ring_symbols_sharp :
-  (ring_symbols (five_rings 99) false = 99%nat /\
+  (ring_symbol_count (five_rings 99) false = 99%nat /\
    exists out, decoder_str default_constraints (five_rings 99) false = Ok out /\ valid_smiles_under default_constraints out = true) /\
-  (ring_symbols (five_rings 100) false = 100%nat /\
+  (ring_symbol_count (five_rings 100) false = 100%nat /\
    exists out, decoder_str default_constraints (five_rings 100) false = Ok out /\ valid_smiles_under default_constraints out = false).
 Proof. split; (split; [vm_compute; reflexivity|eexists; split; vm_compute; reflexivity]). Qed.
 
@@ -215,5 +224,6 @@ Print Assumptions C01_valid_smiles_any_flag.
 Print Assumptions C01_ring_pairs_bounded.
 Print Assumptions C01_valid_smiles_from_string.
 Print Assumptions C01_valid_smiles_from_string_any_flag.
+Print Assumptions C01_valid_smiles_from_string_both_flags.
 Print Assumptions C01_graph_valence_short_symbols.
 Print Assumptions C01_output_is_written_graph.
